@@ -1,7 +1,7 @@
 \* GENERATED from Core.json by lib/tlagen.py
 ---- MODULE DocsCore ----
 EXTENDS JValue
-Docs == <<
+PoolCore == <<
   \* {"x": [["1", null], ["2"], null, "3"], "a": "1", "b": ["1", "2"]}
   Obj(<<Mem(<<97>>, JInt(1)), Mem(<<98>>, Arr(<<JInt(1), JInt(2)>>)), Mem(<<120>>, Arr(<<Arr(<<JInt(1), Null>>), Arr(<<JInt(2)>>), Null, JInt(3)>>))>>),
   \* {"x": [{"a": "1", "b": {"a": "2"}}, {"a": null}, {"b": ["1", "2"]}, "5"], "a": ["1"], "b": null}
